@@ -357,6 +357,101 @@ theorem C13_popv_const_same_value :
       getStack (run { findingSt with stacks := [([83], [1])] } [.popv [83] [[107]]]).stacks [83] = [] := by
   decide
 
+/-! ### temporary symbols: which definitions open a new range -/
+
+/-- a name that is not a temporary one: it starts with none of `$ . - + /` -/
+def Ordinary (n : Name) : Prop := ∃ c r, n = c :: r ∧ c ≠ 36 ∧ c ≠ 46 ∧ c ≠ 45 ∧ c ≠ 43 ∧ c ≠ 47
+
+/-- **Every defining statement opens a new range for temporary symbols.**  Whoever asks `ChkTmp` on behalf of a
+definition - `LabelHandle` for a label in front of an instruction, a pseudo instruction, a macro call or alone on a line
+(`label`), or any other defining statement: EQU, `=`, SET, `:=`, EVAL, LABEL, ENUM, NEXTENUM (`define`) - a non-temporary name
+becomes `LastGlobSymbol` (and is entered unchanged), which is the manual's bookkeeping for every kind of definition
+(`Scope.defNames`: "the most recently-defined symbol not beginning with a dot", the counter that "gets incremented upon
+every definition of a non-temporary symbol").  For all states, names and statement kinds. -/
+theorem C13_tmp_range_opened (st : St) (t : Scope.TmpSt) (n : Name) (src : SymSource) (d : Scope.DefBy)
+    (hsrc : src ≠ .none) (hn : Ordinary n) :
+    (chkTmpDef st n src).1.lastGlob = n ∧ (chkTmpDef st n src).2 = n ∧
+      (Scope.defNames t n d).1.last = n ∧ (Scope.defNames t n d).1.area = t.area + 1 ∧ (Scope.defNames t n d).2 = [n] := by
+  obtain ⟨c, r, rfl, h36, h46, h45, h43, h47⟩ := hn
+  have hm1 : chkTmp1 st (c :: r) = none := by
+    unfold chkTmp1
+    split
+    · rename_i x heq; simp only [List.cons.injEq] at heq; exact absurd heq.1 h36
+    · rfl
+  have hm2 : chkTmp2Ref st (c :: r) = none := by
+    simp [chkTmp2Ref, chMinus, chPlus, h45, h43]
+  have ha : (c :: r : Name) ≠ [chMinus] := by simp [chMinus, h45]
+  have hb : (c :: r : Name) ≠ [chPlus] := by simp [chPlus, h43]
+  have hc : (c :: r : Name) ≠ [chSlash] := by simp [chSlash, h47]
+  have hd : ¬ ((c :: r : Name).head? = some chDot) := by simp [chDot, h46]
+  have hmodel : chkTmpDef st (c :: r) src = ({ st with lastGlob := c :: r }, c :: r) := by
+    unfold chkTmpDef
+    rw [hm1]
+    simp only [ha, hb, hc, if_false, hm2]
+    unfold chkTmp3
+    rw [if_neg hd, if_pos hsrc]
+  have hopen : Scope.opensRange d = true := by cases d <;> rfl
+  have hspec : Scope.defNames t (c :: r) d = ({ t with area := t.area + 1, last := c :: r }, [c :: r]) := by
+    unfold Scope.defNames
+    split
+    · rename_i x heq; simp only [List.cons.injEq] at heq; exact absurd heq.1 h36
+    · rename_i x heq; simp only [List.cons.injEq] at heq; exact absurd heq.1 h46
+    · rename_i heq; simp only [List.cons.injEq] at heq; exact absurd heq.1 h45
+    · rename_i heq; simp only [List.cons.injEq] at heq; exact absurd heq.1 h43
+    · rename_i heq; simp only [List.cons.injEq] at heq; exact absurd heq.1 h47
+    · rw [hopen]; rfl
+  rw [hmodel, hspec]
+  exact ⟨rfl, rfl, rfl, rfl, rfl⟩
+
+/-- **Composed temporary symbols**: a definition (by a label or by any other defining statement) or a reference of `.x`
+is the symbol `LastGlobSymbol ++ .x` and leaves `LastGlobSymbol` alone - the manual's "the name of the most
+recently-defined symbol not beginning with a dot is prepended".  Together with `C13_tmp_range_opened` the invariant
+`st.lastGlob = t.last` between MODEL and SPEC holds along every sequence of such definitions. -/
+theorem C13_tmp_composed (st : St) (t : Scope.TmpSt) (x : Name) (src : SymSource) (d : Scope.DefBy) (h : st.lastGlob = t.last) :
+    chkTmpDef st (46 :: x) src = (st, t.last ++ 46 :: x) ∧ chkTmp3Ref st (46 :: x) = t.last ++ 46 :: x ∧
+      Scope.defNames t (46 :: x) d = (t, [t.last ++ 46 :: x]) := by
+  have hm1 : chkTmp1 st (46 :: x) = none := by
+    unfold chkTmp1
+    split
+    · rename_i y heq; simp at heq
+    · rfl
+  have hm2 : chkTmp2Ref st (46 :: x) = none := by
+    simp [chkTmp2Ref, chMinus, chPlus]
+  refine ⟨?_, ?_, ?_⟩
+  · unfold chkTmpDef
+    rw [hm1]
+    simp only [chMinus, chPlus, chSlash, List.cons.injEq, Nat.reduceEqDiff, false_and, if_false, hm2]
+    simp [chkTmp3, chDot, h]
+  · simp [chkTmp3Ref, chDot, h]
+  · rfl
+
+/-- **Named temporary symbols**: the name `$$x` stands for depends on `x` and on `LastGlobSymbol` only, and two states
+give the same internal name exactly when their `LastGlobSymbol` are the same byte strings.  So after
+`C13_tmp_range_opened` a `$$x` can be used again as soon as a non-temporary symbol *of another name* has been defined
+by any statement - and not after a definition that repeats the name (finding
+`named-temp-reused-after-same-named-symbol`; the manual's counter would separate these too). -/
+theorem C13_tmp_named (st1 st2 : St) (x : Name)
+    (h1 : ∀ c ∈ st1.lastGlob, c < 256) (h2 : ∀ c ∈ st2.lastGlob, c < 256) :
+    chkTmp1 st1 (36 :: 36 :: x) = chkTmp1 st2 (36 :: 36 :: x) ↔ st1.lastGlob = st2.lastGlob := by
+  simp only [chkTmp1, Option.some.injEq]
+  constructor
+  · intro h
+    have := List.append_cancel_left h
+    exact hashName_inj _ _ h1 h2 this
+  · intro h; rw [h]
+
+/-- the ENUM counter of the MODEL (`codeEnum`) gives every member the value the manual states (`Scope.enumVals`) -/
+theorem C13_enum_values (items : List (Name × Option Int)) (cur : Int) (st : St) (h : st.enumCur = cur) :
+    (codeEnum st items).enumCur = (Scope.enumVals cur items).2 := by
+  induction items generalizing st cur with
+  | nil => simpa [codeEnum, Scope.enumVals] using h
+  | cons it r ih =>
+    simp only [codeEnum, List.foldl_cons, Scope.enumVals]
+    have := ih (it.2.getD cur + 1)
+      { defineSymbol { st with enumCur := it.2.getD st.enumCur } it.1 (it.2.getD st.enumCur) false .define with
+        enumCur := it.2.getD st.enumCur + 1 } (by simp [h])
+    simpa [codeEnum] using this
+
 /-! ### non-vacuity -/
 
 /-- a one-section chain: handle 0 is section `A` under global; `sym` is defined in `A` only -/
@@ -378,5 +473,11 @@ example : ∀ e, tfind ([] : Tab) ([1], -1) = some e → e.changeable = true ∨
 example : upper [115, 121, 109] = upper [83, 89, 77] ∧ ([115, 121, 109] : Name) ≠ [83, 89, 77] := by decide
 example : Scope.findNamed [65] [[66], [65]] = some [[65]] ∧ Scope.target [[66], [65]] (.parent 1) = some [[65]] := by decide
 example : (Op.pushv [] []).isPopv = false := rfl
+example : Ordinary [115, 105, 122, 101] := ⟨115, [105, 122, 101], rfl, by decide, by decide, by decide, by decide, by decide⟩
+/-- `size equ 4` then `.loop`: the composed name is `size.loop` in MODEL and SPEC -/
+example : (chkTmpDef (chkTmpDef {} [115, 105, 122, 101] .define).1 [46, 108] .label).2 = [115, 105, 122, 101, 46, 108] ∧
+    (Scope.defNames (Scope.defNames {} [115, 105, 122, 101] .equ).1 [46, 108] .label).2 = [[115, 105, 122, 101, 46, 108]] := by decide
+example : chkTmp1 { lastGlob := [97] } [36, 36, 116] ≠ chkTmp1 { lastGlob := [98] } [36, 36, 116] := by decide
+example : Scope.enumVals 0 [([97], none), ([98], some 5), ([99], none)] = ([([97], 0), ([98], 5), ([99], 6)], 7) := by decide
 
 end AslModel.Sym
